@@ -26,17 +26,20 @@ func Ref(id int) Val      { return Val{1, int64(id)} }
 func (v Val) IsRef() bool { return v[0] == 1 }
 
 type Node struct {
-	ID        int    `json:"id"`
-	Kind      string `json:"kind"` // list dict set tuple struct func bound
-	Host      bool   `json:"host,omitempty"`
-	PreFrozen bool   `json:"prefrozen,omitempty"`
-	Exists    bool   `json:"exists"` // created before a failure planted inside build()
-	Elems     []Val  `json:"elems"`  // final contents (dict: k,v,k,v,...; struct: field values in order f0,f1,..)
-	Defaults  []Val  `json:"defaults,omitempty"`
-	Captures  []int  `json:"captures,omitempty"`
-	Recv      int    `json:"recv,omitempty"`
-	Method    string `json:"method,omitempty"`
-	Init      []Val  `json:"-"`
+	ID        int      `json:"id"`
+	Kind      string   `json:"kind"` // list dict set tuple struct ssum func bound
+	Host      bool     `json:"host,omitempty"`
+	PreFrozen bool     `json:"prefrozen,omitempty"`
+	Exists    bool     `json:"exists"` // created before a failure planted inside build()
+	Elems     []Val    `json:"elems"`  // final contents (dict: k,v,k,v,...; struct: field values in order f0,f1,..)
+	Defaults  []Val    `json:"defaults,omitempty"`
+	Captures  []int    `json:"captures,omitempty"`
+	Recv      int      `json:"recv,omitempty"`
+	Method    string   `json:"method,omitempty"`
+	Fields    []string `json:"fields,omitempty"` // struct, ssum: field names, parallel to Elems (sorted)
+	A         int      `json:"a,omitempty"`      // ssum: the struct sum  A + B
+	B         int      `json:"b,omitempty"`
+	Init      []Val    `json:"-"`
 }
 
 type Link struct {
@@ -72,7 +75,7 @@ func (d *Desc) hashable(v Val) bool {
 	switch n.Kind {
 	case "list", "dict", "set":
 		return false
-	case "tuple", "struct":
+	case "tuple", "struct", "ssum":
 		for _, e := range n.Init {
 			if !d.hashable(e) {
 				return false
@@ -126,11 +129,41 @@ func GenWith(r *hx.Rand, shared bool) *Desc {
 		nd := &Node{ID: id, Exists: true}
 		host := id < nhost
 		nd.Host = host
-		kinds := []string{"list", "list", "dict", "dict", "set", "tuple", "struct", "func", "func", "bound"}
+		kinds := []string{"list", "list", "dict", "dict", "set", "tuple", "struct", "ssum", "ssum", "func", "func", "bound"}
 		if host {
-			kinds = []string{"list", "dict", "set"}
+			kinds = []string{"list", "dict", "set", "struct"}
 		}
 		nd.Kind = hx.Pick(r, kinds)
+		if nd.Kind == "ssum" {
+			// the sum of two earlier structs (one of them possibly a frozen host struct)
+			var cands []int
+			for j := 0; j < id; j++ {
+				if d.Nodes[j].Kind == "struct" || d.Nodes[j].Kind == "ssum" {
+					cands = append(cands, j)
+				}
+			}
+			if len(cands) < 2 {
+				nd.Kind = "struct"
+			} else {
+				nd.A = hx.Pick(r, cands)
+				nd.B = hx.Pick(r, cands)
+				// often: exactly one operand is a struct the host froze beforehand
+				var frozen, fresh []int
+				for _, c := range cands {
+					if d.Nodes[c].PreFrozen {
+						frozen = append(frozen, c)
+					} else if !d.Nodes[c].Host {
+						fresh = append(fresh, c)
+					}
+				}
+				if len(frozen) > 0 && len(fresh) > 0 && r.Intn(3) > 0 {
+					nd.A, nd.B = hx.Pick(r, frozen), hx.Pick(r, fresh)
+					if r.Bool() {
+						nd.A, nd.B = nd.B, nd.A
+					}
+				}
+			}
+		}
 		if nd.Kind == "bound" {
 			// receiver: an earlier list/dict/set
 			var cands []int
@@ -156,6 +189,27 @@ func GenWith(r *hx.Rand, shared bool) *Desc {
 			nd.Init = append(nd.Init, Atom(int64(1000+id))) // unique tag: tuples and structs compare structurally
 			for i := 0; i < k; i++ {
 				nd.Init = append(nd.Init, anyVal(id))
+			}
+			if nd.Kind == "struct" {
+				for j := range nd.Init {
+					nd.Fields = append(nd.Fields, fmt.Sprintf("f%02d_%d", id, j))
+				}
+			}
+		case "ssum":
+			// x + y: the fields of both, those of y winning; sorted by name
+			m := map[string]Val{}
+			for _, o := range []int{nd.A, nd.B} {
+				on := d.Nodes[o]
+				for j, name := range on.Fields {
+					m[name] = on.Init[j]
+				}
+			}
+			for name := range m {
+				nd.Fields = append(nd.Fields, name)
+			}
+			sort.Strings(nd.Fields)
+			for _, name := range nd.Fields {
+				nd.Init = append(nd.Init, m[name])
 			}
 		case "dict":
 			for i := 0; i < k; i++ {
@@ -207,7 +261,7 @@ func GenWith(r *hx.Rand, shared bool) *Desc {
 		d.Nodes = append(d.Nodes, nd)
 		d.Stmts = append(d.Stmts, Stmt{New: id})
 		if host {
-			if r.Intn(4) == 0 {
+			if r.Intn(4) == 0 || (nd.Kind == "struct" && r.Bool()) {
 				nd.PreFrozen = true
 			}
 			if id == nhost-1 {
@@ -355,9 +409,11 @@ func (d *Desc) Source() string {
 			case "struct":
 				var fs []string
 				for j, v := range nd.Init {
-					fs = append(fs, fmt.Sprintf("f%d=%s", j, d.expr(v)))
+					fs = append(fs, fmt.Sprintf("%s=%s", nd.Fields[j], d.expr(v)))
 				}
 				fmt.Fprintf(&b, "    n%d = reg(%d, struct(%s))\n", id, id, strings.Join(fs, ", "))
+			case "ssum":
+				fmt.Fprintf(&b, "    n%d = reg(%d, %s + %s)\n", id, id, d.expr(Ref(nd.A)), d.expr(Ref(nd.B)))
 			case "bound":
 				fmt.Fprintf(&b, "    n%d = reg(%d, %s.%s)\n", id, id, d.expr(Ref(nd.Recv)), nd.Method)
 			case "func":
@@ -466,6 +522,12 @@ func Instantiate(d *Desc, src string) *Instance {
 				s.Insert(in.Value(e))
 			}
 			in.Objs[nd.ID] = s
+		case "struct":
+			sd := starlark.StringDict{}
+			for j, e := range nd.Init {
+				sd[nd.Fields[j]] = in.Value(e)
+			}
+			in.Objs[nd.ID] = starlarkstruct.FromStringDict(starlarkstruct.Default, sd)
 		}
 		pre[fmt.Sprintf("h%d", nd.ID)] = in.Objs[nd.ID]
 	}
